@@ -33,7 +33,7 @@ func runC07(r *Run) error {
 	defer closeEnv()
 	hists := 14
 	if r.Tier == "thorough" {
-		hists = 150
+		hists = 600
 	}
 	pool := []string{"Doc1", "doc1", "DOC", "doc", "a.b", "x-1", "Zed"}
 	searches := []string{"doc", "Doc1", "DOC1", "oc", "a.b", "A.B", "x", "q", "ed", "1"}
